@@ -100,6 +100,14 @@ CHECKS.update({
    ref="DESIGN.md §4 C16"),
 })
 
+CHECKS.update({
+ "C07": dict(
+   technique="property-based testing (proptest): reference renamer over an independent class model applying the remapper's own answers at ~50 JVMS position kinds; jar-level predicates through the zip layer; strict decoder for well-formedness",
+   text="Generated-input exploration: jars of generated classes with manifest, directory and resource entries (given as bytes, parsed trees or a zip archive) are remapped by dukebox with quill remappers built from mapping sets generated over the names the classes use (members declared in super types inside the jar); a reference renamer written from JVMS applies the remapper's own answers to each input class and must equal both the remapped tree and the class re-read from the written jar; entry names, non-class bytes and structural validity are checked on the reopened jar. Holds on everything explored apart from the listed known findings (module data and record components dropped, frames lost when written).",
+   note="Trusted: harness model/projection/renamer, strict decoder. Not compared: generic signatures, simple inner names, annotation element names, variable/parameter names, indy/condy names (the remapper gives no answer for them); unknown attributes are not generated.",
+   ref="DESIGN.md §4 C07"),
+})
+
 NOT_YET = {
 }
 
